@@ -133,7 +133,9 @@ def run_system(kind, cfg, image, dump, max_cycles=3000):
   prob = cfg['stall_prob']
   if kind == 'cl':
     for i in range(n):
-      th.mem.req_stalls[i].stall_rgen = RecRandom(i, clock, draws[i])   # StallCL( stall_prob, i ): seed i
+      # MagicMemoryCL builds StallCL( stall_prob, i ), i.e. seed i; the case may choose other seeds
+      seed = cfg.get('stall_seed', list(range(n)))[i]
+      th.mem.req_stalls[i].stall_rgen = RecRandom(seed, clock, draws[i])
   envd = {}
   def sample_cl(c):
     row = []
